@@ -8,8 +8,14 @@ Streams
             near the table such as non-field attributes of the class, trailing empty lines)
             -> the real FortranBase.read_metadata on a bare entity vs Lean `readMetadata` (exact).
   dedent  : textwrap.dedent vs Lean `dedent` (exact).
-  program : generated programs (unique tracer words per entity comment x four doc styles x marker
-            characters x inline/own-line x gaps; comment bodies incl. one-line `key: value` / `word: text`
+  reader  : short runs of comment lines in every marker form and every order (doc / pre / alt / pre-alt marker
+            lines, ordinary comments, blank lines, statements with and without inline comments, random marker
+            characters) -> list(FortranReader) vs Lean `readAll` (exact, error kinds included): the reader's
+            block modes (`reading_predoc`, `reading_predoc_alt`, `reading_alt`, `prevdoc`) walked directly.
+  program : generated programs (unique tracer words per entity comment x doc styles - the four pure ones and
+            the documented mixtures inside one comment: a `!>` block continued with `!!` lines, several
+            consecutive preceding blocks (pre / pre-alt), several consecutive following blocks (doc lines /
+            alt block) - x marker characters x inline/own-line x gaps; comment bodies incl. one-line `key: value` / `word: text`
             comments and the Markdown constructs whose definitions are kept on the Markdown instance:
             footnotes, reference-style links, abbreviations, with labels shared between comments) -> Project -> per entity
             (a) correspondence: (name, metadata, doc_list) == Lean `entDocs (attach (readAll lines))`,
@@ -569,7 +575,21 @@ class ProgGen:
         return nodes
 
 
-STYLES = ["following", "following-inline", "pre", "alt", "prealt"]
+# The four pure styles (+ inline placement of the first line), and the documented ways of mixing marker forms
+# inside ONE comment ("In the first line of your preceding documentation, use `!>` rather than the usual `!!`.
+# This can be used on all lines of the preceding documentation if desired, but this is not necessary"; a docmark
+# line is documentation wherever it stands; an alternate marker opens a block of plain-comment lines):
+#   pre-mixed           first line pre-marker, every later line pre-marker or plain doc marker
+#   pre-segments        several consecutive preceding blocks before the statement, each either a (mixed) pre-marker
+#                       block or a pre-alt block
+#   following-segments  several consecutive following blocks after the statement, each either doc-marker lines or
+#                       an alt block (first block optionally starting inline)
+#   pre-and-following   one entity documented on both sides: preceding block(s), the statement, following block(s);
+#                       the reader hands the preceding lines over right after the statement and before its
+#                       trailing docs, so the entity's documentation is the comment in source order
+STYLES = ["following", "following-inline", "pre", "alt", "prealt", "pre-mixed", "pre-segments", "following-segments",
+          "pre-and-following"]
+FALLBACK = {"pre-mixed": "pre", "pre-segments": "pre", "following-segments": "following", "pre-and-following": "pre"}
 
 
 def assign_styles(rng, nodes, uniform=None):
@@ -577,6 +597,8 @@ def assign_styles(rng, nodes, uniform=None):
         if n.kind == "entity":
             if n.comment is not None:
                 n.style = uniform or rng.choice(STYLES)
+                if n.style in FALLBACK and len(n.comment.lines) < 2:
+                    n.style = FALLBACK[n.style]  # nothing to mix in a one-line comment
                 if n.style == "following-inline" and n.comment.lines[0] == "":
                     n.style = "following"
             if n.body:
@@ -606,6 +628,50 @@ def render(rng, nodes, marks, layout):
 
     def docline(ind, mark, text, sp):
         return ind + "!" + mark + (sp + text if text else "")
+
+    def segments(st, clines):
+        """The comment's lines cut into consecutive blocks, each with the marker form it is written in:
+        'P' pre-marker block (later lines pre-marker or doc marker), 'PA' pre-alt block, 'D' doc-marker lines,
+        'A' alt block.  Returns [(form, [lines])]."""
+        if st == "pre":
+            return [("Ppure", clines)]
+        if st == "pre-mixed":
+            return [("P", clines)]
+        if st == "prealt":
+            return [("PA", clines)]
+        if st == "alt":
+            return [("A", clines)]
+        if st in ("following", "following-inline"):
+            return [("D", clines)]
+        k = min(len(clines), rng.choice([2, 2, 3]))
+        cuts = sorted(rng.sample(range(1, len(clines)), k - 1))
+        parts = [clines[a:b] for a, b in zip([0] + cuts, cuts + [len(clines)])]
+        if st == "pre-and-following":
+            j = rng.randint(1, k - 1)  # blocks before the statement
+            return [(rng.choice(["P", "PA"] if i < j else ["D", "A"]), p) for i, p in enumerate(parts)]
+        forms = ["P", "PA"] if st == "pre-segments" else ["D", "A"]
+        return [(rng.choice(forms), p) for p in parts]
+
+    def put_segment(ind, form, seg, sp, first_done):
+        """Own-line doc lines of one block; `first_done`: its first line was already put (inline)."""
+        for k, t in enumerate(seg):
+            if k == 0 and first_done:
+                continue
+            if form in ("P", "Ppure"):
+                if k and rng.random() < 0.1:
+                    put(ind + rng.choice(["! plain inside predoc", "! t0q0 plain inside predoc", ""]))
+                    layout.add("gap-inside-predoc")
+                if k and form == "P" and rng.random() < 0.65:
+                    put(docline(ind, doc, t, sp))
+                    layout.add("docmark-line-inside-predoc-block")
+                else:
+                    put(docline(ind, pre, t, sp))
+            elif form == "PA":
+                put(docline(ind, prealt if k == 0 else "", t, sp))
+            elif form == "A":
+                put(docline(ind, alt if k == 0 else "", t, sp))
+            else:
+                put(docline(ind, doc, t, sp))
 
     def walk(nodes, depth, container):
         ind = "  " * depth
@@ -648,40 +714,42 @@ def render(rng, nodes, marks, layout):
                 sp = rng.choice([" ", " ", " ", ""]) if c is None or not any(l.startswith(" ") for l in c.lines) else " "
                 if c is not None and any(l.startswith("    ") for l in c.lines):
                     sp = " "
-                if c is not None and st in ("alt", "prealt"):
+                segs = segments(st, c.lines) if c is not None else []
+                if any(f in ("A", "PA") for f, _ in segs):
                     sp = " "  # a bare "!" + text that starts with a marker character would be a marker line
                 if c is not None:
                     layout.add("style:" + st)
-                if c is not None and st in ("pre", "prealt"):
-                    mk = pre if st == "pre" else prealt
-                    for k, t in enumerate(c.lines):
-                        if st == "pre":
-                            if k and rng.random() < 0.1:
-                                put(ind + rng.choice(["! plain inside predoc", ""]))
-                                layout.add("gap-inside-predoc")
-                            put(docline(ind, mk, t, sp))
-                        else:
-                            put(docline(ind, mk if k == 0 else "", t, sp))
+                    if len(segs) > 1:
+                        layout.add("segments:" + "+".join(f for f, _ in segs))
+                pre_segs = [sg for sg in segs if sg[0] in ("P", "Ppure", "PA")]
+                fol_segs = [sg for sg in segs if sg[0] in ("D", "A")]
+                if pre_segs:
+                    for form, seg in pre_segs:
+                        put_segment(ind, form, seg, sp, False)
                     state["no_plain_comment_next"] = False
                     if rng.random() < 0.15:
-                        put(rng.choice(["", ind + "! plain between predoc and statement"]) if st == "pre" else "")
+                        put(rng.choice(["", ind + "! plain between predoc and statement"])
+                            if pre_segs[-1][0] in ("P", "Ppure") else "")
                         layout.add("gap-before-statement")
                 line = ind + n.text
-                if c is not None and st == "following-inline":
-                    line += rng.choice([" ", "  ", ""]) + "!" + doc + (sp + c.lines[0] if c.lines[0] else "")
+                inline = False
+                if fol_segs and fol_segs[0][0] == "D" and fol_segs[0][1][0] != "" and \
+                        (st == "following-inline" or st in ("following-segments", "pre-and-following") and rng.random() < 0.3):
+                    t0 = fol_segs[0][1][0]
+                    line += rng.choice([" ", "  ", ""]) + "!" + doc + sp + t0
+                    inline = True
+                    layout.add("first-line-inline")
                 put(line)
                 state["no_plain_comment_next"] = False
-                if c is not None and st in ("following", "following-inline"):
-                    rest = c.lines if st == "following" else c.lines[1:]
-                    if st == "following" and rng.random() < 0.12:
+                if fol_segs:
+                    # (not after a preceding block: the reader turns a blank / comment line that follows handed-over
+                    # doc lines into an empty doc line, which would cut a metadata header or a box in two)
+                    if fol_segs[0][0] == "D" and not inline and not pre_segs and rng.random() < 0.12:
                         put(rng.choice(["", ind + "! plain before following doc"]))
                         layout.add("gap-before-following-doc")
-                    for k, t in enumerate(rest):
-                        put(docline(ind, doc, t, sp))
-                if c is not None and st == "alt":
-                    for k, t in enumerate(c.lines):
-                        put(docline(ind, alt if k == 0 else "", t, sp))
-                    state["no_plain_comment_next"] = True
+                    for si, (form, seg) in enumerate(fol_segs):
+                        put_segment(ind, form, seg, sp, inline and si == 0)
+                    state["no_plain_comment_next"] = fol_segs[-1][0] == "A"
                 for nm in n.names:
                     if c is not None:
                         w, m, f, a = expected.setdefault(nm, ([], {}, set(), []))
@@ -1079,6 +1147,88 @@ def rmeta_stream(ford, drv, rng, n, rep, hist, flags):
     return len(reqs), bad
 
 
+def impl_read(path, marks):
+    """list(FortranReader(path)) with errors mapped to the model's enum."""
+    from ford.reader import FortranReader
+
+    try:
+        with common.quiet():
+            return ["ok"] + list(FortranReader(str(path), *marks))
+    except ValueError as e:
+        msg = str(e)
+        if "Preceding documentation lines" in msg:
+            return ["err", "predoc-inline"]
+        if "Alternate documentation" in msg:
+            return ["err", "alt-inline"]
+        if "Can not start a new line" in msg:
+            return ["err", "amp-start"]
+        return ["err", "ValueError:" + msg[:60]]
+    except RuntimeError as e:
+        if "Preceding alternate documentation" in str(e):
+            return ["err", "predoc-alt-inline"]
+        return ["err", "RuntimeError:" + str(e)[:60]]
+    except Exception as e:  # noqa
+        return ["err", type(e).__name__ + ":" + str(e)[:60]]
+
+
+def docblock_stream(ford, drv, rng, n, rep, hist):
+    """Mode switching of the reader: short runs of comment lines in EVERY marker form, in every order (also the
+    combinations nobody documents), between statements -> list(FortranReader) vs Lean `readAll`, exact.  What
+    the reader does with a marker line depends on the block it is in (`reading_predoc`, `reading_predoc_alt`,
+    `reading_alt`, `prevdoc`); this stream walks that state space directly."""
+    reqs, exp = [], []
+    with common.scratch_dir() as d:
+        f = d / "r.f90"
+        for k in range(n):
+            marks = DEFAULT_MARKS if rng.random() < 0.5 else tuple(rng.sample(MARK_POOL, 4))
+            doc, pre, alt, prealt = marks
+            lines, shape = [], []
+            for _ in range(rng.randint(2, 8)):
+                ind = rng.choice(["", "", "  "])
+                r = rng.random()
+                w = f"w{len(lines)}"
+                if r < 0.5:
+                    i = rng.randrange(4)
+                    lines.append(ind + "!" + marks[i] + rng.choice([" ", ""]) + rng.choice([w, w, ""]))
+                    shape.append("DPAQ"[i])  # D doc, P pre, A alt, Q pre-alt
+                elif r < 0.65:
+                    lines.append(ind + rng.choice(["! " + w, "!", "!" + w]))
+                    shape.append("c")
+                elif r < 0.75:
+                    lines.append(rng.choice(["", "  "]))
+                    shape.append("b")
+                elif r < 0.9:
+                    lines.append(ind + rng.choice(["x = 1", "integer :: v", "call s(1); y = 2", "end"]))
+                    shape.append("s")
+                elif r < 0.96:
+                    lines.append(ind + "x = 1 " + rng.choice(["!" + doc + " " + w, "! " + w, "!" + doc]))
+                    shape.append("i")
+                elif r < 0.98:
+                    lines.append(ind + "x = 1 !" + rng.choice([pre, alt, prealt]) + " " + w)
+                    shape.append("e")
+                else:
+                    lines += [ind + "x = &", ind + rng.choice(["& 1", "  2"])]
+                    shape.append("k")
+            lines.append("z = 0")
+            f.write_text("".join(l + "\n" for l in lines))
+            e = impl_read(f, marks)
+            key = "".join(shape)
+            for a, b in zip(key, key[1:]):
+                if a in "DPAQ" and b in "DPAQcb":
+                    hist["reader-switch:" + a + b] = hist.get("reader-switch:" + a + b, 0) + 1
+            hist["reader:" + ("ok" if e[0] == "ok" else e[1])] = hist.get("reader:" + ("ok" if e[0] == "ok" else e[1]), 0) + 1
+            reqs.append(["read", *marks, *lines])
+            exp.append(e)
+    got = drv.batch(reqs)
+    bad = 0
+    for r, e, g in zip(reqs, exp, got):
+        if e != g:
+            bad += 1
+            rep.tie_broken(f"correspondence micro/reader: model {g[:8]} vs implementation {e[:8]} on marks {r[1:5]} lines {r[5:]!r}",
+                           {"stream": "micro/reader", "request": r, "impl": e, "model": g})
+    return len(reqs), bad
+
+
 def oracle_entity(name, exp, obs):
     """Property oracle for one entity: (None, None) or (description of the failure, kind)."""
     why = _oracle_words_meta(name, exp, obs)
@@ -1315,13 +1465,18 @@ def run(tier: str, seed: int, replay: str | None = None) -> int:
         ev_r, bad_r = rmeta_stream(ford, drv, rng, n_micro, rep, hist, flags)
         ev_micro += ev_r
         bad_micro += bad_r
+        ev_r, bad_r = docblock_stream(ford, drv, rng, n_micro, rep, hist)
+        ev_micro += ev_r
+        bad_micro += bad_r
     n_cases, n_ent, n_pipe, n_corr, n_orc = program_stream(ford, drv, rng, n_prog, rep, hist, samples, distinct,
                                                            replay_case, flags)
     rep.coverage.update(
         evaluations=ev_micro + n_cases + n_pipe,
         distinct_nontrivial=len(distinct),
         rule="program cases = generated Fortran files (modules, programs, procedures, types, components, bound/final "
-             "procedures, generic interfaces, enums, variables) x per-entity doc style x marker characters x layout gaps "
+             "procedures, generic interfaces, enums, variables) x per-entity doc style (following, inline, pre, alt, pre-alt, "
+             "pre block continued with plain doc-marker lines, several preceding / following blocks of different forms) "
+             "x marker characters x layout gaps "
              "x comment shape (rich body / one-line key: value / one-line word: text / footnotes, reference links, "
              "abbreviations with labels shared between comments); "
              "counted: distinct (entity, tracer sequence, doc features, file) tuples whose entity has a non-empty doc comment",
